@@ -15,6 +15,7 @@ import (
 	"testing"
 
 	"github.com/goplus/xgo/format"
+	"github.com/goplus/xgo/token"
 	"pgregory.net/rapid"
 
 	"verif/internal/gen/fmtin"
@@ -82,9 +83,54 @@ func check(c Case) (v *vk.Verdict, in info) {
 		return vk.Bad(in.cls("second-pass-error", ""), "the formatted text is rejected by the second pass: %v\n--- first pass:\n%s", err, fmtin.Short(string(out), 1500)), in
 	}
 	if !bytes.Equal(out, out2) {
+		// every listed shape is a layout defect (alignment, line breaks, a comma before a line
+		// break): it only covers for a second pass that prints the same tokens and comments
+		if !sameTokens(out, out2) {
+			return vk.Bad("not-idempotent:tokens-differ", "%s", diffLines(out, out2)), in
+		}
 		return vk.Bad(in.cls("not-idempotent", ""), "%s", diffLines(out, out2)), in
 	}
 	return nil, in
+}
+
+// sameTokens compares the token streams of two texts: automatic semicolons and a comma that
+// directly precedes a closing bracket are layout, comment texts are compared without their
+// leading/trailing white space.
+func sameTokens(a, b []byte) bool {
+	norm := func(src []byte) []string {
+		var out []string
+		toks := fmtin.Tokens(src)
+		for i, t := range toks {
+			if t.Auto {
+				continue
+			}
+			if t.Tok == token.COMMA || t.Tok == token.SEMICOLON {
+				j := i + 1
+				for j < len(toks) && toks[j].Auto {
+					j++
+				}
+				if j < len(toks) && (toks[j].Tok == token.RPAREN || toks[j].Tok == token.RBRACE || toks[j].Tok == token.RBRACK) {
+					continue
+				}
+			}
+			lit := t.Lit
+			if t.Tok == token.COMMENT {
+				lit = strings.Join(strings.Fields(lit), " ")
+			}
+			out = append(out, t.Tok.String()+"\x00"+lit)
+		}
+		return out
+	}
+	x, y := norm(a), norm(b)
+	if len(x) != len(y) {
+		return false
+	}
+	for i := range x {
+		if x[i] != y[i] {
+			return false
+		}
+	}
+	return true
 }
 
 func diffLines(a, b []byte) string {
@@ -126,6 +172,15 @@ func run(t failer, c Case, labels ...string) {
 		return
 	}
 	vk.R.Case(in.changed, string(c.Src))
+	// how much of the input space the listed shapes blind: every source that shows one is counted
+	if len(in.shapes) > 0 {
+		vk.R.Class("shows-listed-shape=yes")
+		for _, sh := range in.shapes {
+			if vk.R.KnownClass("shape/"+sh) != nil {
+				vk.R.Class("covered-by-known-shape=" + sh)
+			}
+		}
+	}
 	if in.changed && len(c.Src) < 1500 {
 		vk.R.Sample(string(c.Src))
 	}
